@@ -756,6 +756,25 @@ def expected(c, lp, skip_limits=False):
 
 BIG = 1e99
 
+# which path through the translated method body an evaluation takes (distribution printed with the evidence)
+_EXITS = {"esc": "instance_from_vector raises AssertionError: not caught, leaves the call",
+          "limit": "instance_from_vector raises PriorLimitException: except FitException",
+          "assert": "instance_from_vector raises FitException (assertion): except FitException",
+          "fitexc": "likelihood raises FitException: except FitException",
+          "nan": "np.isnan(log_likelihood)", "nan-posterior": "np.isnan(figure_of_merit) of a nan posterior"}
+
+
+def source_path(c, kind):
+    fl = c["flags"]
+    if c["ps"]:
+        if kind == "ok":
+            return "FitnessPySwarms.__call__: loop body falls through; elif store_history=%s" % fl["store"]
+        return "FitnessPySwarms.__call__: %s%s" % (_EXITS[kind], "" if kind in ("esc", "nan-posterior", "nan") else " -> np.nan -> isnan -> -2*resample")
+    if kind == "ok":
+        return "Fitness.__call__: fom_is_log_likelihood=%s store_history=%s convert_to_chi_squared=%s -> return figure_of_merit" % (
+            fl["like"], fl["store"], fl["chi2"])
+    return "Fitness.__call__: %s%s" % (_EXITS[kind], "" if kind == "esc" else " -> return resample_figure_of_merit")
+
 
 def wired_label(c):
     f = c["wired"]
@@ -984,7 +1003,10 @@ def run(ctx):
         ctx.notes["wiring"] = [list(w) for w in WIRING[0]]
         ctx.translated = {k: {"source": v["source"], "line": v["line"]} for k, v in infos.items()}
         ctx.translated["traits"] = tr
-        ctx.obligation("translator:Gen.v", "translator", True, "%d expressions, traits %s" % (len(infos), tr))
+        ctx.translated["statement_level"] = stmt_reports
+        ctx.obligation("translator:Gen.v", "translator", True, "%d expressions, traits %s; statement-level: %s" % (
+            len(infos), tr, ", ".join("%s (%d statements, %d named section variables)" % (k, len(v["statements"]), len(v["section_variables"]))
+                                      for k, v in sorted(stmt_reports.items()))))
         translated = True
     except T.TranslationError as e:
         ctx.obligation("translator:Gen.v", "translator", False, str(e))
@@ -1037,6 +1059,7 @@ def run(ctx):
                                         "hist" if fl["store"] else "nohist"))
         for k in exp["kinds"]:
             ctx.hist("outcome", k)
+            ctx.hist("translated-source-path", source_path(c, k))
         ctx.hist("priors", len(c["model"]["priors"]))
         ctx.hist("ops", len(c["ops"]))
         ctx.hist("return-type", c["script"]["ret"])
@@ -1063,17 +1086,32 @@ def run(ctx):
             coq_idx.append(i)
         if i % 61 == 0:
             ctx.sample({"case": c, "observed": {"out": r["out"], "hist_p": r["hist_p"], "hist_l": r["hist_l"]}}, limit=5)
+    have_gen = os.path.exists(os.path.join(common.COQ, "C04", "GenModel.vo"))
     if os.path.exists(os.path.join(common.COQ, "C04", "Model.vo")):
-        hdr = ctx.header(["Common.PyFloat", "Gen", "Model"])
-        bad, log = ctx.eval_cases(hdr, "case", "check_case", coq_cases, shard=60 if ctx.tier != "thorough" else 250)
+        # both the hand-written model (check_case) and the statement-level translation of the source
+        # (check_case_gen: Gen.Fitness_call / Gen.FitnessPySwarms_call run on the same case) against the observables
+        hdr = ctx.header(["Common.PyFloat", "Gen", "Model"] + (["GenModel"] if have_gen else []))
+        if not have_gen:
+            ctx.obligation("correspondence:translated-source", "correspondence", False, "GenModel.vo not built")
+        bad, log = ctx.eval_cases(hdr, "case", "check_case_both" if have_gen else "check_case", coq_cases,
+                                  shard=60 if ctx.tier != "thorough" else 250)
+        ctx.notes["correspondence_runs"] = "hand-written model and translated source (check_case_both)" if have_gen else "hand-written model only"
         if bad:
             for b in bad[:5]:
                 i = coq_idx[b]
                 fails = verdicts.get(i) or []
                 classes = sorted({x for _, cl in fails for x in cl}) if fails and all(cl for _, cl in fails) else []
                 shown = ctx.show(hdr, "model_run (%s)" % coq_cases[b], tag="show%d" % b)
-                ctx.failure("correspondence", "model and implementation disagree (fitness object: %s)" % ("pyswarms" if cases[i]["ps"] else "plain"),
-                            cases[i], classes=classes, impl=results[i]["ok"], model=shown[:3000],
+                which = ""
+                if have_gen:
+                    w = ctx.show(hdr, "(check_case (%s), check_case_gen (%s))" % (coq_cases[b], coq_cases[b]), tag="which%d" % b)
+                    hand_ok, gen_ok = ("(true," in w.replace(" ", "")), (",true)" in w.replace(" ", ""))
+                    which = {(False, True): "; the hand-written model disagrees, the function translated from the source agrees with the running code",
+                             (True, False): "; the function translated from the source disagrees (the hand-written model agrees): translator semantics or an abstracted external",
+                             (False, False): "; both the hand-written model and the function translated from the source disagree"}.get((hand_ok, gen_ok), "")
+                    shown = shown[:1800] + "\n--- translated source: ---\n" + ctx.show(hdr, "model_run_gen (%s)" % coq_cases[b], tag="showg%d" % b)[:1800]
+                ctx.failure("correspondence", "model and implementation disagree (fitness object: %s)%s" % ("pyswarms" if cases[i]["ps"] else "plain", which),
+                            cases[i], classes=classes, impl=results[i]["ok"], model=shown[:4000],
                             broken={"kind": "correspondence", "name": "C04.check_case"}, found_input=bool(fails))
     else:
         ctx.obligation("correspondence:cases", "correspondence", False, "Model.vo not built")
